@@ -281,11 +281,60 @@ theorem roundTaps_pos (n k : Nat) : 1 ≤ roundTaps n k := by unfold roundTaps; 
 /-! ### `dft_stage_init` -/
 
 @[simp] theorem dft_L (i : DftIn) : (dftStageInit i).L = i.L := rfl
-@[simp] theorem dft_dftLen (i : DftIn) : (dftStageInit i).dftLen = i.dftLen := rfl
+theorem dft_dftLen (i : DftIn) : (dftStageInit i).dftLen = finalDftLen i.L i.dftLen := rfl
 theorem dft_blockLen (i : DftIn) : (dftStageInit i).blockLen = (dftStageInit i).dftLen - ((dftStageInit i).numTaps - 1) := rfl
 theorem dft_preload (i : DftIn) : (dftStageInit i).preload = (dftStageInit i).postPeak / i.L := rfl
 theorem dft_clk (i : DftIn) : (dftStageInit i).clk = (dftStageInit i).postPeak % i.L := rfl
-theorem dft_isz (i : DftIn) : (dftStageInit i).isz = (i.dftLen - (dftStageInit i).clk + i.L - 1) / i.L := rfl
+theorem dft_isz (i : DftIn) : (dftStageInit i).isz = ((dftStageInit i).dftLen - (dftStageInit i).clk + i.L - 1) / i.L := rfl
+
+/-! ### the padding loop `while (dft_length < 32 * L) dft_length <<= 1` -/
+
+/-- the loop only doubles -/
+theorem padDft_form (L : Nat) : ∀ fuel D, ∃ j, padDft L fuel D = D * 2 ^ j := by
+  intro fuel
+  induction fuel with
+  | zero => intro D; exact ⟨0, by simp [padDft]⟩
+  | succ f ih =>
+    intro D
+    unfold padDft
+    split
+    · obtain ⟨j, hj⟩ := ih (2 * D)
+      exact ⟨j + 1, by rw [hj, Nat.pow_succ]; rw [Nat.mul_comm 2 D, Nat.mul_assoc, Nat.mul_comm 2 (2 ^ j)]⟩
+    · exact ⟨0, by simp⟩
+
+/-- nothing happens when the length is already `≥ 32·L` -/
+theorem padDft_id (L fuel D : Nat) (h : 32 * L ≤ D) : padDft L fuel D = D := by
+  cases fuel with
+  | zero => rfl
+  | succ f => unfold padDft; rw [if_neg (by omega)]
+
+/-- with enough fuel the loop ends at `≥ 32·L` (every doubling of a length `≥ 1` gains at least 1) -/
+theorem padDft_ge (L : Nat) : ∀ fuel D, 1 ≤ D → 32 * L ≤ fuel + D → 32 * L ≤ padDft L fuel D := by
+  intro fuel
+  induction fuel with
+  | zero => intro D _ h; simpa [padDft] using h
+  | succ f ih =>
+    intro D hD h
+    unfold padDft
+    split
+    · exact ih (2 * D) (by omega) (by omega)
+    · omega
+
+theorem finalDftLen_ge (L D : Nat) (hp : isPow2L L = true) (hD : 1 ≤ D) : 32 * L ≤ finalDftLen L D := by
+  unfold finalDftLen; rw [if_pos hp]; exact padDft_ge L (32 * L) D hD (by omega)
+
+/-- a power of two stays a power of two -/
+theorem finalDftLen_pow2 (L b : Nat) : ∃ c, finalDftLen L (2 ^ b) = 2 ^ c := by
+  unfold finalDftLen
+  split
+  · obtain ⟨j, hj⟩ := padDft_form L (32 * L) (2 ^ b)
+    exact ⟨b + j, by rw [hj, Nat.pow_add]⟩
+  · exact ⟨b, rfl⟩
+
+theorem finalDftLen_id (L D : Nat) (h : 32 * L ≤ D) : finalDftLen L D = D := by
+  unfold finalDftLen; split
+  · exact padDft_id L _ D h
+  · rfl
 
 /-- latency bookkeeping, every phase: `post_peak = L·preload + at`, `at < L` -/
 theorem dft_latency (i : DftIn) (hL : 0 < i.L) :
